@@ -276,7 +276,13 @@ func genC11(r *rand.Rand, run int, _ string) *Scenario {
 		case x < 6:
 			be.Root = append(be.Root, BEOp{Kind: "read", Key: r.IntN(len(be.Keys))})
 		case x < 7:
-			be.Root = append(be.Root, BEOp{Kind: pick(r, "expireAll", "delete", "store", "restoreNever", "restoreNever"), Key: r.IntN(len(be.Keys))})
+			op := BEOp{Kind: pick(r, "expireAll", "delete", "store", "restoreNever", "restoreNever", "restoreExpiring"), Key: r.IntN(len(be.Keys))}
+			if op.Kind == "restoreExpiring" {
+				// an entry with an expiry arrives through Restore (e.g. imported from a cache with a TTL)
+				op.HasTTL, op.TTLNs = true, pick(r, 100*24*3600*sec, -pick(r, int64(1), dea/2, dea-ms), -(dea+pick(r, ms, dea, 10*dea)), -(dea+pick(r, ms, dea, 10*dea)))
+			}
+
+			be.Root = append(be.Root, op)
 		default:
 			be.Root = append(be.Root, BEOp{Kind: "sleep", SleepNs: pick(r, iv/3, iv+ms, 2*iv+ms, dea+iv+ms, 3*iv)})
 		}
@@ -424,6 +430,17 @@ func (r *beRun) modeJanitor() {
 				// an entry without expiry (E=0) arrives through Restore, whatever the target's TimeToLive
 				r.restoreNever(m, i, op)
 				out.probe("entry_without_expiry_restored")
+
+				continue
+			}
+
+			if op.Kind == "restoreExpiring" {
+				// an entry with an expiry arrives through Restore: from now on the cache holds an expiring
+				// entry and the scan is due, whatever the target's TimeToLive
+				r.restoreExpiring(m, i, op)
+				out.probe("entry_with_expiry_restored")
+
+				explicitTTL = true
 
 				continue
 			}
@@ -856,6 +873,44 @@ func (r *beRun) restoreNever(m *refModel, i int, op *BEOp) {
 	now := time.Now().UnixNano()
 	m.m[key] = &mEntry{val: tok, never: true, writeLo: now, writeHi: now}
 	r.e.logf("restored %q without expiry", key)
+}
+
+// restoreExpiring dumps a one-entry cache of the same family whose entry carries an explicit TTL
+// and restores it into the cache under test.
+func (r *beRun) restoreExpiring(m *refModel, i int, op *BEOp) {
+	cfg := r.cacheConfig()
+	cfg.TimeToLive = time.Hour
+	cfg.ExpirationJitter = -1
+	cfg.DeleteExpiredJobInterval = farFuture
+	cfg.Stats, cfg.Logger, cfg.EvictionNeeded = nil, nil, nil
+
+	src := newBackend(r.sc.Backend, cfg)
+	key := string(r.sc.Keys[op.Key])
+	tok := Tok{K: key, ID: fmt.Sprintf("w0.%d", i)}
+
+	ttl := op.TTLNs
+	if !op.HasTTL || ttl == 0 {
+		ttl = int64(cfg.TimeToLive) // the shrinker may have dropped the explicit TTL: the source's default applies
+	}
+
+	lo := time.Now().UnixNano()
+	_ = src.write(cache.WithTTL(context.Background(), dur(ttl), false), []byte(key), tok)
+	hi := time.Now().UnixNano()
+
+	var buf bytes.Buffer
+
+	_, _ = src.dump(&buf)
+	src.stop()
+
+	if n, err := r.bk.restore(&buf); n != 1 || err != nil {
+		r.e.out.Internal = fmt.Sprintf("restore of a one-entry dump gave (%d, %v)", n, err)
+
+		return
+	}
+
+	now := time.Now().UnixNano()
+	m.m[key] = &mEntry{val: tok, expLo: lo + ttl, expHi: hi + ttl, writeLo: lo, writeHi: now}
+	r.e.logf("restored %q with expiry %v", key, time.Unix(0, lo+ttl).UTC())
 }
 
 // oracleC11Conc (concurrent variant of C11): fresh entries survive any number of cleanup cycles,
